@@ -183,7 +183,7 @@ VERUS_UNITS = {
     },
     'despawn_reg': {
         'template': 'despawn_reg.rs.tpl',
-        'owners': [(r'register_despawn_(reactor|scope)$', ['C07', 'C18', 'C01', 'C08'])],
+        'owners': [(r'register_despawn_(reactor|scope)$', ['C07', 'C18', 'C01', 'C08']), (r'DespawnTracker::drop$', ['C08'])],
         'negctl': [
             # R3 must be a real obligation: if an existing tracker could be replaced the precondition of insert is violated
             ('&& (tr0.dom().contains(entity) ==> tr1 =~= tr0)', '&& (tr0.dom().contains(entity) ==> tr1 =~= tr0.remove(entity))', 'register_despawn_scope'),
